@@ -171,5 +171,8 @@ int main(int argc, char **argv) {
     if (prop == "c10") rc = drive("C10", opt, c10::body, c10::enumerate);
     else if (prop == "c19") rc = drive("C19", opt, c19::body);
     if (opt.own_work) rm_rf(opt.work);
-    return rc;
+    // leave without exit handlers: after a failed case entities may still be open, and HDF5's own
+    // termination routine is not part of what is checked
+    fflush(nullptr);
+    _exit(rc);
 }
